@@ -120,6 +120,7 @@ type Obligation struct {
 	HasRegion    bool
 	Retried      bool
 	Candidate    *SolverResult // model of the quantifier-free weakening (to be confirmed by replay)
+	Reproduced   bool          // a failing input was replayed on the real code
 }
 
 type InputSym struct {
@@ -166,6 +167,7 @@ type Unit struct {
 	lastSpecErr string
 	vacuityPos  int
 	indexTerms  []string
+	dropped     []string // loop clauses that no longer apply to the code (renamed / removed locals)
 	quants      []*quantAssumption
 	boundNow   map[string]bool
 	retReach []Term
